@@ -1,6 +1,7 @@
 import CwMt.Proofs.Engine
 import CwMt.Proofs.Prefix
 import CwMt.Proofs.Layout
+import CwMt.Proofs.Flat
 /-
   C08 — Each contract's storage is private to it and is all it can touch.
   Two layers: (1) at the byte level, the raw key spaces of different contracts and of the other
@@ -115,5 +116,74 @@ example : toLPNested [("wasm".toUTF8.toList), ("contract_data/" ++ "").toUTF8.to
   rw [contract_prefix "" (by rw [show "" = String.ofList [] from rfl, Layout.utf8_ofList]; decide),
     show "" = String.ofList [] from rfl, Layout.utf8_ofList]
   decide
+
+
+/-! ### from the one root store to the model's components
+
+The engine model keeps `bank`, the contract registry, every `cstore[a]`, staking … as separate values; the code keeps
+ONE `Storage`. `window pfx raw` is the component living under a namespace. A contract's write (or removal) through its
+view of the root store is exactly that write on its own component, and the bank, staking, distribution and registry
+components and every other contract's component are the same stores as before — as whole values, for every key. -/
+
+theorem flat_contract_write (raw : Store Val) (hs : raw.Sorted) (a : String) (pc k : Key) (v : Val)
+    (hc : toLPNested [("wasm".toUTF8.toList), ("contract_data/" ++ a).toUTF8.toList] = .ok pc) :
+    window pc (View.set raw pc k v) = (window pc raw).set k v ∧
+    (∀ pm, toLPNested [("bank".toUTF8.toList)] = .ok pm → window pm (View.set raw pc k v) = window pm raw) ∧
+    (∀ pm, toLPNested [("staking".toUTF8.toList)] = .ok pm → window pm (View.set raw pc k v) = window pm raw) ∧
+    (∀ pm, toLPNested [("distribution".toUTF8.toList)] = .ok pm → window pm (View.set raw pc k v) = window pm raw) ∧
+    (∀ pr, toLPNested [("wasm".toUTF8.toList), ("contracts".toUTF8.toList)] = .ok pr →
+      window pr (View.set raw pc k v) = window pr raw) ∧
+    (∀ (b : String) (pb : Key),
+      ("contract_data/" ++ a).toUTF8.toList ≠ ("contract_data/" ++ b).toUTF8.toList →
+      toLPNested [("wasm".toUTF8.toList), ("contract_data/" ++ b).toUTF8.toList] = .ok pb →
+      window pb (View.set raw pc k v) = window pb raw) := by
+  have w := Flat.write_refines raw hs pc k v
+  refine ⟨w.1, ?_, ?_, ?_, ?_, ?_⟩
+  · intro pm hm
+    exact w.2 pm (fun x hx hy => Layout.contract_window_disjoint_from_bank a pc pm x hc hm hx hy)
+  · intro pm hm
+    exact w.2 pm (fun x hx hy => Layout.contract_window_disjoint_from_staking a pc pm x hc hm hx hy)
+  · intro pm hm
+    exact w.2 pm (fun x hx hy => Layout.contract_window_disjoint_from_distribution a pc pm x hc hm hx hy)
+  · intro pr hr
+    exact w.2 pr (fun x hx hy => Layout.contract_window_disjoint_from_registry a pc pr x hc hr hx hy)
+  · intro b pb hne hb
+    exact w.2 pb (fun x hx hy => hne (Engine.contract_windows_disjoint a b pc pb x hc hb hx hy))
+
+theorem flat_contract_remove (raw : Store Val) (a : String) (pc k : Key)
+    (hc : toLPNested [("wasm".toUTF8.toList), ("contract_data/" ++ a).toUTF8.toList] = .ok pc) :
+    window pc (View.remove raw pc k) = (window pc raw).remove k ∧
+    (∀ pm, toLPNested [("bank".toUTF8.toList)] = .ok pm → window pm (View.remove raw pc k) = window pm raw) ∧
+    (∀ pm, toLPNested [("staking".toUTF8.toList)] = .ok pm → window pm (View.remove raw pc k) = window pm raw) ∧
+    (∀ pm, toLPNested [("distribution".toUTF8.toList)] = .ok pm → window pm (View.remove raw pc k) = window pm raw) ∧
+    (∀ pr, toLPNested [("wasm".toUTF8.toList), ("contracts".toUTF8.toList)] = .ok pr →
+      window pr (View.remove raw pc k) = window pr raw) ∧
+    (∀ (b : String) (pb : Key),
+      ("contract_data/" ++ a).toUTF8.toList ≠ ("contract_data/" ++ b).toUTF8.toList →
+      toLPNested [("wasm".toUTF8.toList), ("contract_data/" ++ b).toUTF8.toList] = .ok pb →
+      window pb (View.remove raw pc k) = window pb raw) := by
+  have w := Flat.remove_refines raw pc k
+  refine ⟨w.1, ?_, ?_, ?_, ?_, ?_⟩
+  · intro pm hm
+    exact w.2 pm (fun x hx hy => Layout.contract_window_disjoint_from_bank a pc pm x hc hm hx hy)
+  · intro pm hm
+    exact w.2 pm (fun x hx hy => Layout.contract_window_disjoint_from_staking a pc pm x hc hm hx hy)
+  · intro pm hm
+    exact w.2 pm (fun x hx hy => Layout.contract_window_disjoint_from_distribution a pc pm x hc hm hx hy)
+  · intro pr hr
+    exact w.2 pr (fun x hx hy => Layout.contract_window_disjoint_from_registry a pc pr x hc hr hx hy)
+  · intro b pb hne hb
+    exact w.2 pb (fun x hx hy => hne (Engine.contract_windows_disjoint a b pc pb x hc hb hx hy))
+
+/-- the frame works in the other direction too: a write by ANY module under a namespace disjoint from the contract's
+leaves the contract's component untouched (bank transfers, registry updates, staking bookkeeping) -/
+theorem flat_foreign_write (raw : Store Val) (q r pc : Key) (v : Val) (hq : q <+: r)
+    (hd : Flat.Disjoint q pc) : window pc (Store.set raw r v) = window pc raw := by
+  apply Flat.window_set_other
+  cases h : hasPrefix pc r with
+  | false => rfl
+  | true =>
+    obtain ⟨t, ht⟩ := Prefix.hasPrefix_iff.1 h
+    exact (hd r hq ⟨t, ht.symm⟩).elim
 
 end CwMt.C08
